@@ -480,7 +480,7 @@ def reject_point(ctx, fedjax, cd, rng):
 
 
 # ----------------------------------------------------------------------------- buffered_shuffle / RepeatableIterator
-BASE_KINDS = ['list', 'tuple', 'dict', 'str', 'bytes', 'generator', 'iterator', 'range', 'custom-iterable']
+BASE_KINDS = ['list', 'tuple', 'dict', 'str', 'bytes', 'generator', 'iterator', 'range', 'custom-iterable', 'changing-iterable']
 
 
 class _Iterable:
@@ -491,6 +491,21 @@ class _Iterable:
 
   def __iter__(self):
     return iter(list(self._items))
+
+
+class _ChangingIterable:
+  """A re-iterable source that does NOT yield the same items on every iter() call (a reader over a growing log, an unseeded
+  shuffled view): only its FIRST pass defines what a RepeatableIterator over it must replay."""
+
+  def __init__(self, items):
+    self._items = list(items)
+    self._calls = 0
+
+  def __iter__(self):
+    self._calls += 1
+    if self._calls == 1:
+      return iter(list(self._items))
+    return iter([x + 1000 * self._calls for x in reversed(self._items)] + [-self._calls])
 
 
 def make_base(kind, n):
@@ -516,6 +531,8 @@ def make_base(kind, n):
     return (lambda: range(1, 3 * n + 1, 3)), items
   if kind == 'custom-iterable':
     return (lambda: _Iterable(items)), items
+  if kind == 'changing-iterable':
+    return (lambda: _ChangingIterable(items)), items
   raise AssertionError(kind)
 
 
@@ -774,6 +791,40 @@ def fds_point(ctx, fedjax, cd, rng):
                 klass=['fds:seed=None' if seed is None else 'fds:seeded', 'fds:seed=0' if seed == 0 else 'fds:seed!=0', 'fds:empty-client' if 0 in sizes else 'fds:no-empty'])
 
 
+def reject_fd_point(ctx, fedjax, cd, rng):
+  """The federated entry point: a client-level preprocessor gives EMPTY clients another feature set than the others (it returns
+  early for them). Batching such a federation must be refused with ValueError, wherever the empty client sits."""
+  m = int(rng.randint(2, 6))
+  pos = int(rng.randint(m))
+  sizes = [0 if i == pos else int(rng.randint(1, 6)) for i in range(m)]
+  base = 0
+  mapping = {}
+  for i, sz in enumerate(sizes):
+    mapping[b'r%02d' % i] = {'idx': np.arange(base, base + sz, dtype=np.int64), 'f32': rng.randn(sz).astype(np.float32)}
+    base += sz
+
+  def add_feature(client_id, ex):
+    if len(ex['idx']) == 0:
+      return ex
+    return {**ex, 'derived': ex['f32'] * 2}
+
+  b = int(rng.randint(1, 6))
+  entry = 'padded_batch_federated_data'      # (a shuffled infinite stream need not meet the empty client within a finite prefix)
+  wit = {'family': 'reject-fd', 'sizes': sizes, 'empty_client_position': pos, 'batch_size': b, 'entry': entry}
+
+  def go():
+    fd = fedjax.InMemoryFederatedData(mapping).preprocess_client(add_feature)
+    if entry == 'padded_batch_federated_data':
+      return list(fedjax.padded_batch_federated_data(fd, batch_size=b))
+    return list(itertools.islice(fedjax.shuffle_repeat_batch_federated_data(fd, batch_size=b, client_buffer_size=2, example_buffer_size=4, seed=1), 6))
+
+  r = ctx.call(entry, go, expect=(ValueError,), witness=wit)
+  ctx.count('reject:fd-empty-client-other-features')
+  ctx.check(not r.ok, 'reject/fd-no-valueerror-empty-client-features',
+            f'{entry} accepted a federation whose empty client has another feature set than the others', wit)
+  ctx.case_done(('reject-fd', tuple(sizes), b, entry), sample=wit, klass=['reject-fd'])
+
+
 # ----------------------------------------------------------------------------- driver
 def size_seqs(b, max_m):
   for m in range(0, max_m + 1):
@@ -839,6 +890,8 @@ def run(ctx):
   # ---- rejection
   for cid, rng in ctx.cases('reject', 600 if q else 8000):
     guarded(ctx, reject_point, ctx, fedjax, cd, rng)
+  for cid, rng in ctx.cases('reject-fd', 120 if q else 1500):
+    guarded(ctx, reject_fd_point, ctx, fedjax, cd, rng)
 
   # ---- buffered_shuffle: exhaustive (length, buffer, base kind)
   lmax = 10 if q else 16
